@@ -28,6 +28,11 @@ def Op.inDomain : Op → Prop
   | .load a n => n % 8 = 0 ∧ 0 < n ∧ n < 2 ^ 63 ∧ a + n / 8 ≤ U64
   | .setPerm _ _ _ => True
 
+/-- the answer of a load -/
+def ansOfLoad : Res (Option Const) → Ans
+  | .ok r => .loaded r
+  | _ => .fault
+
 /-- the model run: what falcon answers (per the mirror model) -/
 def runModel (m : Mem) : List Op → List Ans
   | [] => []
@@ -36,10 +41,7 @@ def runModel (m : Mem) : List Op → List Ans
     | .ok m' => .stored :: runModel m' t
     | .err _ => .rejected :: runModel m t
     | .panic => .fault :: runModel m t
-  | .load a n :: t =>
-    (match load m a n with
-     | .ok r => .loaded r
-     | _ => .fault) :: runModel m t
+  | .load a n :: t => ansOfLoad (load m a n) :: runModel m t
   | .setPerm a len p :: t => .permSet :: runModel (setPermissions m a len p) t
 
 /-- the specification run: a byte array -/
@@ -83,7 +85,7 @@ theorem history_gen : ∀ (ops : List Op) (m : Mem), Inv m → (∀ op ∈ ops, 
         rw [ih m I ht]
     | load a n =>
       obtain ⟨h8, hpos, hsm, hfit⟩ := hop
-      simp only [runModel, runSpec, load_spec I a n h8 hpos hsm hfit]
+      simp only [runModel, runSpec, load_spec I a n h8 hpos hsm hfit, ansOfLoad]
       rw [ih m I ht]
     | setPerm a len p =>
       simp only [runModel, runSpec]
